@@ -185,7 +185,7 @@ func runCursorProperty(judge func(CursorCase, *CursorObs, *Trace, *bs.BloomSearc
 }
 
 func TestC20(t *testing.T) {
-	Ev.Rule = "case = dataset (1-6 files x 1-6 blocks x 1/10/63/70/200 rows: several 64-row batches per block in the larger ones), MaxQueryConcurrency 1..1000, query kind (match-all / token / one file / one block / nothing), engine never started / started / stopped, optional read latency, 0-3 store failures (OpenFile / Read / Seek / iterator start / iterator yield at generated positions, each with its own sentinel), optional ctx-honouring gate inside the MetaStore iteration, and a consumer script (drain; Next xk then Close or cancel; Close or cancel from another goroutine after 0-10 ms; stall; Close before the first row; 60-90 single-block files on a budget of 1-3 with a consumer that stops reading before Close/cancel (the pipeline backs up to the candidate-pulling stage); a world with a malformed block whose scan fails after its rows were matched (drained; or the consumer stops reading for 300-400 ms and then closes; or cancels); a slow walk through buffered rows of a finished pipeline while another goroutine calls Close 150-220 ms in (repeated 12 times); 2-4 goroutines calling Close at the same moment mid-stream with 0.5-5 ms read latency). Oracle: Next returns false (20 s harness limit, 5 s after Close/cancel) and stays false; every Close returns nil, three concurrent late Closes do not change Err; clean runs: Err nil iff no failure fired, else mentions every fired sentinel and wraps the store error; cancel finished before the final Next began (no Close) => errors.Is(Err, context.Canceled); deliberate Close => never the ctx error; racing cases accept nil / recorded failures / ctx error. Non-trivial: termination landed mid-stream (0 < rows < total) or a failure fired; distinct by case."
+	Ev.Rule = "case = dataset (1-6 files x 1-6 blocks x 1/10/63/70/200 rows: several 64-row batches per block in the larger ones), MaxQueryConcurrency 1..1000, query kind (match-all / token / one file / one block / nothing), engine never started / started / stopped, optional read latency, 0-3 store failures (OpenFile / Read / Seek / iterator start / iterator yield at generated positions, each with its own sentinel), optional ctx-honouring gate inside the MetaStore iteration, and a consumer script (drain; Next xk then Close or cancel; Close or cancel from another goroutine after 0-10 ms; stall; Close before the first row; 60-90 single-block files on a budget of 1-3 with a consumer that stops reading before Close/cancel (the pipeline backs up to the candidate-pulling stage); a world with a malformed block whose scan fails after its rows were matched (drained; or the consumer stops reading for 300-400 ms and then closes; or cancels); a slow walk through buffered rows of a finished pipeline while another goroutine calls Close 150-220 ms in (repeated 12 times); 2-4 goroutines calling Close at the same moment mid-stream with 0.5-5 ms read latency; blocks of exactly five 64-row batches on a budget of 1-3: after a stall every worker is parked on the full row buffer, the consumer reads up to the first row of one more batch and calls Close/cancel at once, repeated 12 times). Oracle: Next returns false (20 s harness limit, 5 s after Close/cancel) and stays false; every Close returns nil, three concurrent late Closes do not change Err; clean runs: Err nil iff no failure fired, else mentions every fired sentinel and wraps the store error; cancel finished before the final Next began (no Close) => errors.Is(Err, context.Canceled); deliberate Close => never the ctx error; racing cases accept nil / recorded failures / ctx error. Non-trivial: termination landed mid-stream (0 < rows < total) or a failure fired; distinct by case."
 	Ev.Assumptions = []string{"failures that fire after the query was terminated may be dropped (documented as teardown noise)"}
 	runChecks(t, "scripts", 400, 10000, genCursorCase(true), runCursorProperty(func(c CursorCase, o *CursorObs, _ *Trace, _ *bs.BloomSearchEngine) (*Violation, bool) {
 		return judgeC20(c, o)
